@@ -310,6 +310,10 @@ def run_unit(u, repo=None, keep_trace=True):
     if covers_unreached:
         raise Undecided("vacuity guard: situation %r is not reachable under the unit's preconditions" % covers_unreached[0]["description"])
     real_failed = [r for r in failed if not is_guard(r)]
+    undefined = [r for r in real_failed if "undefined function should be unreachable" in r.get("description", "")]
+    if undefined:
+        # the extracted text calls a function the unit has no body / contract for (e.g. after a refactoring): nothing is decided about it
+        raise Undecided("the extracted text of %s calls a function outside the unit (%s): not decided" % (u.name, undefined[0].get("property", "?")))
     if unknown and not real_failed:
         # UNKNOWN only follows a real FAILURE (cbmc stops refining); on its own it decides nothing
         raise Undecided("cbmc left %d obligations UNKNOWN in %s without a failing one" % (len(unknown), u.name))
